@@ -196,14 +196,17 @@ def check(prop, tier, seed):
                          "boundaries/extremes of wider ones, derived enums against default-method twins; trait census over the closed "
                          "type universe per feature configuration; one evaluation = one probe of the real crate compared with the "
                          "model over the REGENERATED tables and checked by the monitor; distinct = distinct transcript lines" % ", ".join(which))
-        if fam == "derive" or prop == "C17":
+        if fam == "derive" or prop in ("C17", "C13"):
             import fam_derive
-            res = fam_derive.transcripts(tier, seed, fam_derive.SETS[prop])
-            m, c, st = fam_derive.findings(res, prop)
-            mons += m; corrs += c; herr += list(st["harness_errors"]); notes += st.get("notes", [])
-            evals += st["evaluations"]; distinct += len(st["distinct"]); samples += st["samples"]
-            dist["derivefam_by_line_kind"] = dict(st["by_fn"]); dist["derivefam"] = dict(st["by_outcome"])
-            dist["derivefam_transcripts_cached"] = res.get("cached", False)
+            sets = fam_derive.SETS[prop]
+            for which in (sets if isinstance(sets, tuple) else (sets,)):
+                res = fam_derive.transcripts(tier, seed, which)
+                m, c, st = fam_derive.findings(res, prop)
+                mons += m; corrs += c; herr += list(st["harness_errors"]); notes += st.get("notes", [])
+                evals += st["evaluations"]; distinct += len(st["distinct"]); samples += st["samples"]
+                dist.setdefault("derivefam_by_line_kind", {}).update(dict(st["by_fn"]))
+                dist.setdefault("derivefam", {}).update({"%s:%s" % (which, k): v for k, v in dict(st["by_outcome"]).items()})
+                dist["derivefam_transcripts_cached"] = res.get("cached", False)
             rules.append("derivefam: a seeded family of type definitions (fixed corpus first), each (definition, derive) pair in its own "
                          "module; the real rustc + derive macro give the compile verdict of every pair (iterated cargo check, errors "
                          "attributed by span), a facts binary gives the compiler's layout and run-time behaviour; each observation is "
